@@ -4,21 +4,21 @@ Import ListNotations.
 From GMS Require Import Sys.Auth Sys.C40Sha1.
 Open Scope N_scope.
 
-(* observed outcomes: validate: 0 = false, 1 = true, 2 = panic; login: Accept/Deny/LPanic *)
+(* observed outcomes: validate: 0 = false, 1 = true, 2 = panic; login: accepted as / denied / panic.
+   The model has no panic outcome any more: an observed panic never agrees with it. *)
+Inductive obs : Type := OAccept (name host : bytes) | ODeny | OPanic.
 Inductive case : Type :=
 | CValidate (resp salt auth : bytes) (out : N)
 | CHostPat (host pat : bytes) (out : bool)
 | CSha (msg digest : bytes)
-| CLogin (enabled : bool) (users : list user) (name host salt resp : bytes) (out : login_result) (native_ok : bool).
+| CLogin (enabled : bool) (users : list user) (name host salt resp : bytes) (out : obs) (native_ok : bool).
 
-Definition out_code (o : outcome bool) : N :=
-  match o with Ret false => 0 | Ret true => 1 | Panic => 2 end.
+Definition out_code (o : bool) : N := if o then 1 else 0.
 
-Definition lr_eqb (a b : login_result) : bool :=
+Definition lr_eqb (a : login_result) (b : obs) : bool :=
   match a, b with
-  | Accept n h, Accept n' h' => beqb n n' && beqb h h'
-  | Deny, Deny => true
-  | LPanic, LPanic => true
+  | Accept n h, OAccept n' h' => beqb n n' && beqb h h'
+  | Deny, ODeny => true
   | _, _ => false
   end.
 
